@@ -2,7 +2,8 @@
    structural spec function of NixLex.v; property theorems transfer through it. *)
 From Coq Require Import List Ascii String Bool Arith Lia.
 Import ListNotations.
-Require Import Gen NixLex.
+From Dyn Require Import Gen.
+From Lex Require Import NixLex.
 Open Scope char_scope.
 
 Lemma gen_loop_acc fuel interp rest acc :
@@ -53,6 +54,3 @@ Theorem C12_written_core : forall s, nix_read (_escape_nix_string true s) = Some
 Proof. intros s. rewrite generated_escape_is_spec. apply read_escape. Qed.
 Print Assumptions C12_written_core.
 
-(* F-11: Python's `$` lets a bare segment end in a newline *)
-Example F11_witness : re_npath_ident [c 97; c 10] = true.
-Proof. vm_compute. reflexivity. Qed.
